@@ -10,7 +10,9 @@ VERIF = Path(__file__).resolve().parent.parent
 sys.path.insert(0, str(VERIF))
 
 NOT_BUILT_REASON = "not claimed yet: model, theorems and correspondence harness for this property are still being built (no technical obstacle; see DESIGN.md §5)"
-NOT_APPLICABLE = {}  # property -> reason, for properties the technique genuinely cannot decide
+NOT_APPLICABLE = {}
+# built but temporarily not claimed (being adapted to a change merged from another property)
+PENDING = {}
 
 
 def main() -> None:
@@ -19,6 +21,9 @@ def main() -> None:
     for pid in props:
         hp = VERIF / "harness" / f"{pid.lower()}.py"
         pp = VERIF / "lean" / "Upnp" / "Props" / f"{pid}.lean"
+        if pid in PENDING:
+            na.append({"property_id": pid, "reason": PENDING[pid]})
+            continue
         if pid in NOT_APPLICABLE:
             na.append({"property_id": pid, "reason": NOT_APPLICABLE[pid]})
             continue
